@@ -4072,5 +4072,158 @@ theorem killGlyph_detaches {h : Heap} (w : Wired h) {l g : Id} {ng : Node} (eg :
     rw [kidsOf_eq gl]
     simp
 
+
+/-- what the glyphs of the layer owned is let go with them -/
+theorem fold_stepL_grand {ds} {l s f : Id} (ks : List Id) (hnd : ks.Nodup) :
+    ∀ h, WiredX (l :: ds) h → LayerCtx h l s f → l ∉ ks → s ∉ ks → f ∉ ks →
+      (∀ k ∈ ks, h.ownerOf k = some l ∧ k ∉ l :: ds) →
+      ∀ i, (∃ k ∈ ks, h.ownerOf i = some k) → (ks.foldl (stepL l) h).ownerOf i = none := by
+  induction ks with
+  | nil => intro h _ _ _ _ _ _ i hi; obtain ⟨k, hk, _⟩ := hi; simp at hk
+  | cons k ks ih =>
+    intro h w c hl hs hf hown i hi
+    obtain ⟨hok, hkd⟩ := hown k (by simp)
+    obtain ⟨w1, g1, r1⟩ := stepL_facts w c hok hkd
+    have hkk : k ∉ ks := (List.nodup_cons.mp hnd).1
+    have lk : l ≠ k := fun e => hl (by simp [e])
+    have sk : s ≠ k := fun e => hs (by simp [e])
+    have fk : f ≠ k := fun e => hf (by simp [e])
+    have osk : h.ownerOf s ≠ some k := by rw [c.os]; intro e; cases e; exact fk rfl
+    have olk : h.ownerOf l ≠ some k := by rw [c.ol]; intro e; cases e; exact sk rfl
+    have ofk : h.ownerOf f ≠ some k := by rw [ownerOf_font c.kf]; simp
+    have c1 : LayerCtx (stepL l h k) l s f :=
+      c.transfer (by rw [g1]; simp [lk, olk]) (by rw [g1]; simp [sk, osk]) (by rw [g1]; simp [fk, ofk])
+    have hown1 : ∀ k' ∈ ks, (stepL l h k).ownerOf k' = some l ∧ k' ∉ l :: ds := fun k' hk' => by
+      obtain ⟨a, b⟩ := hown k' (by simp [hk'])
+      have ne : k' ≠ k := fun e => hkk (e ▸ hk')
+      have : h.ownerOf k' ≠ some k := by rw [a]; intro e; cases e; exact lk rfl
+      refine ⟨?_, b⟩
+      have e1 : (stepL l h k).get k' = h.get k' := by rw [g1]; simp [ne, this]
+      simp only [Heap.ownerOf, e1]
+      exact a
+    rw [List.foldl_cons]
+    obtain ⟨k0, hk0, hoi⟩ := hi
+    rcases List.mem_cons.mp hk0 with rfl | hk0
+    · -- owned by the head: cleared by this step, untouched afterwards
+      obtain ⟨ni, ei, eo⟩ := ownerOf_some hoi
+      have kni : ni.kind ≠ .font := by
+        obtain ⟨_, _, _, _, _, _, knf⟩ := owner_kind w.toStruct ei eo
+        exact knf
+      have e1 : (stepL l h k0).get i = some ni.cleared := by rw [g1]; simp [hoi, ei]
+      have o1 : (stepL l h k0).ownerOf i = none := by rw [ownerOf_eq e1]; exact owner_cleared ni kni
+      have hik : i ∉ ks := fun hm => by
+        have := (hown i (by simp [hm])).1
+        rw [hoi] at this; cases this; exact lk rfl
+      obtain ⟨_, _, g2, _⟩ := fold_stepL (s := s) (f := f) ks (List.nodup_cons.mp hnd).2 (stepL l h k0) w1 c1
+        (fun hm => hl (by simp [hm])) (fun hm => hs (by simp [hm])) (fun hm => hf (by simp [hm])) hown1
+      have := g2 i hik (fun k2 _ => by rw [o1]; simp)
+      simp only [Heap.ownerOf, this]
+      exact o1
+    · -- owned by a later one: this step leaves it alone
+      have hik : i ≠ k := fun e => by
+        subst e; rw [hok] at hoi; cases hoi
+        exact hl (by simp [hk0])
+      have hoik : h.ownerOf i ≠ some k := by
+        rw [hoi]; intro e; cases e; exact hkk hk0
+      have e1 : (stepL l h k).get i = h.get i := by rw [g1]; simp [hik, hoik]
+      refine ih (List.nodup_cons.mp hnd).2 (stepL l h k) w1 c1
+        (fun hm => hl (by simp [hm])) (fun hm => hs (by simp [hm])) (fun hm => hf (by simp [hm])) hown1 i
+        ⟨k0, hk0, by simp only [Heap.ownerOf, e1]; exact hoi⟩
+
+/-- after a layer set let go of a layer: the layer, what it owned (glyph objects, lib) and what those glyphs owned
+point to no owner; the layer set does not list the layer -/
+theorem killLayer_detaches {h : Heap} (w : Wired h) {l s f : Id} (c : LayerCtx h l s f) :
+    (∀ y, (y = l ∨ h.ownerOf y = some l ∨ ∃ k, h.ownerOf k = some l ∧ h.ownerOf y = some k) →
+      (killLayer h s l).ownerOf y = none) ∧ l ∉ (killLayer h s l).kidsOf s := by
+  rw [killLayer_eq]
+  obtain ⟨nl, el, knl⟩ := kindOf_some c.kl
+  obtain ⟨nS, eS, knS⟩ := kindOf_some c.ks
+  have sf : h.storedFont s = some f := by
+    have := c.os; rw [ownerOf_eq eS] at this
+    simp only [owner, knS] at this
+    simp [Heap.storedFont, eS, this]
+  simp only [sf]
+  let h0 := unobserve h l f (namesFor h f l)
+  have g0 : ∀ i, h0.get i = h.get i := fun i => by simp [h0]
+  have dl : dispOf h l = some f := by
+    rw [disp_exact w.toStruct]; simp [centreOf, c.kl, c.centre w.toStruct]
+  have d0 : dispOf h0 l = some f := by rw [dispOf_congr g0]; exact dl
+  show (∀ y, _ → (match dispOf h0 l with
+      | none => h0.unlist s l
+      | some _ => (endSelf (((unobserve h0 l s (namesFor h0 s l)).kidsOf l).foldl (stepL l) (unobserve h0 l s (namesFor h0 s l))) l).unlist s l).ownerOf y = none) ∧
+      l ∉ (match dispOf h0 l with
+      | none => h0.unlist s l
+      | some _ => (endSelf (((unobserve h0 l s (namesFor h0 s l)).kidsOf l).foldl (stepL l) (unobserve h0 l s (namesFor h0 s l))) l).unlist s l).kidsOf s
+  rw [d0]
+  simp only
+  let h1 := unobserve h0 l s (namesFor h0 s l)
+  have g1 : ∀ i, h1.get i = h.get i := fun i => by simp [h1, g0]
+  have kids1 : h1.kidsOf l = nl.kids := by simp [Heap.kidsOf, g1, el]
+  rw [kids1]
+  have hls : l ≠ s := fun e => by have := c.kl; rw [e, c.ks] at this; cases this
+  have kk : ∀ k, k ∈ nl.kids → h.kindOf k = some .glyph ∨ h.kindOf k = some .lib :=
+    fun k hk => layer_kid_kind w.toStruct el knl hk
+  have lks : l ∉ nl.kids := fun hm => by rcases kk l hm with e | e <;> (rw [c.kl] at e; cases e)
+  have sks : s ∉ nl.kids := fun hm => by rcases kk s hm with e | e <;> (rw [c.ks] at e; cases e)
+  have fks : f ∉ nl.kids := fun hm => by rcases kk f hm with e | e <;> (rw [c.kf] at e; cases e)
+  have lalive : h.alive l := ⟨nl, el, Or.inr (by rw [← ownerOf_eq el, c.ol]; simp)⟩
+  have regs1 : ∀ r ∈ h1.regs, r ∈ h.regs := fun r hr => (mem_unobserve (mem_unobserve hr).1).1
+  have knf : nl.kind ≠ .font := by rw [knl]; simp
+  have w1 : WiredX [l] h1 :=
+    wired_mono (wired_regs w g1 (fun r hr => Or.inl (regs1 r hr))) (fun d hd => by simp at hd)
+  have c1 : LayerCtx h1 l s f := c.transfer (g1 l) (g1 s) (g1 f)
+  have hown : ∀ k ∈ nl.kids, h1.ownerOf k = some l ∧ k ∉ [l] := fun k hkm => by
+    refine ⟨?_, ?_⟩
+    · simp only [Heap.ownerOf, g1]
+      exact w.down l k lalive (by simp) (by rw [kidsOf_eq el]; exact hkm)
+    · have : k ≠ l := fun e => lks (e ▸ hkm)
+      simp [this]
+  obtain ⟨w2, o2, g2, r2⟩ := fold_stepL (s := s) (f := f) nl.kids (w.kidsNodup l nl el) h1 w1 c1 lks sks fks hown
+  have o3 := fold_stepL_grand (s := s) (f := f) nl.kids (w.kidsNodup l nl el) h1 w1 c1 lks sks fks hown
+  have ol1 : ∀ k ∈ nl.kids, h1.ownerOf l ≠ some k := fun k hkm => by
+    simp only [Heap.ownerOf, g1]
+    have := c.ol; simp only [Heap.ownerOf] at this; rw [this]
+    intro e; cases e; exact sks hkm
+  have e2l : (nl.kids.foldl (stepL l) h1).get l = some nl := by rw [g2 l lks ol1, g1, el]
+  have os1 : ∀ k ∈ nl.kids, h1.ownerOf s ≠ some k := fun k hkm => by
+    simp only [Heap.ownerOf, g1]
+    have := c.os; simp only [Heap.ownerOf] at this; rw [this]
+    intro e; cases e; exact fks hkm
+  have e2s : (nl.kids.foldl (stepL l) h1).get s = some nS := by rw [g2 s sks os1, g1, eS]
+  have e2l' : (List.foldl (stepL l) (unobserve h0 l s (namesFor h0 s l)) nl.kids).get l = some nl := e2l
+  have e2s' : (List.foldl (stepL l) (unobserve h0 l s (namesFor h0 s l)) nl.kids).get s = some nS := e2s
+  refine ⟨fun y hy => ?_, ?_⟩
+  · have hys : y ≠ s := by
+      rcases hy with e | e | ⟨k, e1, e2⟩
+      · rw [e]; exact hls
+      · intro e2; rw [e2, c.os] at e; cases e
+        have := c.kf; rw [c.kl] at this; cases this
+      · intro e3; rw [e3, c.os] at e2; cases e2
+        -- the font would be owned by the layer
+        rw [ownerOf_font c.kf] at e1; cases e1
+    simp only [Heap.ownerOf, get_unlist, Ne.symm hys, if_false, get_endSelf]
+    rcases hy with e | e | ⟨k, e1, e2⟩
+    · subst e; simp [e2l', owner_cleared nl knf]
+    · have hyl : y ≠ l := fun e2 => by
+        subst e2; rw [c.ol] at e; cases e; exact hls rfl
+      have hyk : y ∈ nl.kids := by
+        obtain ⟨ny, ey, eo⟩ := ownerOf_some e
+        have := w.up y ny l ey eo
+        rw [kidsOf_eq el] at this; exact this
+      have := o2 y hyk
+      simp only [Ne.symm hyl, if_false]
+      exact this
+    · have hkk : k ∈ nl.kids := by
+        obtain ⟨nk, ek, eo⟩ := ownerOf_some e1
+        have := w.up k nk l ek eo
+        rw [kidsOf_eq el] at this; exact this
+      have hyl : y ≠ l := fun e3 => by
+        subst e3; rw [c.ol] at e2; cases e2; exact sks hkk
+      have := o3 y ⟨k, hkk, by simp only [Heap.ownerOf, g1]; exact e2⟩
+      simp only [Ne.symm hyl, if_false]
+      exact this
+  · simp only [Heap.kidsOf, get_unlist, if_true, get_endSelf, if_neg hls, e2s', Option.map_some]
+    simp
+
 end Parents
 end DefconModel
